@@ -400,6 +400,10 @@ def remove_knot(obj, param, num, **kwargs):
                 ccu = [cpts[v + (obj.ctrlpts_size_v * u)] for u in range(obj.ctrlpts_size_u)]
                 ctrlpts_tmp = helpers.knot_removal(obj.degree_u, obj.knotvector_u, ccu, param[0],
                                                    num=num[0], s=s_u, span=span_u)
+                # A removal which cannot be carried out (e.g. of the knots which clamp the shape) is refused before the shape is touched
+                if len(ctrlpts_tmp) != obj.ctrlpts_size_u - num[0]:
+                    raise GeomdlException("Knot " + str(param[0]) + " cannot be removed " + str(num[0]) + " times (u-dir)",
+                                          data=dict(knot=param[0], num=num[0], multiplicity=s_u))
                 ctrlpts_new += ctrlpts_tmp
 
             # Compute new knot vector
@@ -430,6 +434,10 @@ def remove_knot(obj, param, num, **kwargs):
                 ccv = [cpts[v + (obj.ctrlpts_size_v * u)] for v in range(obj.ctrlpts_size_v)]
                 ctrlpts_tmp = helpers.knot_removal(obj.degree_v, obj.knotvector_v, ccv, param[1],
                                                    num=num[1], s=s_v, span=span_v)
+                # A removal which cannot be carried out (e.g. of the knots which clamp the shape) is refused before the shape is touched
+                if len(ctrlpts_tmp) != obj.ctrlpts_size_v - num[1]:
+                    raise GeomdlException("Knot " + str(param[1]) + " cannot be removed " + str(num[1]) + " times (v-dir)",
+                                          data=dict(knot=param[1], num=num[1], multiplicity=s_v))
                 ctrlpts_new += ctrlpts_tmp
 
             # Compute new knot vector
@@ -470,6 +478,10 @@ def remove_knot(obj, param, num, **kwargs):
             # Compute new control points
             ctrlpts_tmp = helpers.knot_removal(obj.degree_u, obj.knotvector_u, cpt2d, param[0],
                                                num=num[0], s=s_u, span=span_u)
+            # A removal which cannot be carried out (e.g. of the knots which clamp the shape) is refused before the shape is touched
+            if len(ctrlpts_tmp) != obj.ctrlpts_size_u - num[0]:
+                raise GeomdlException("Knot " + str(param[0]) + " cannot be removed " + str(num[0]) + " times (u-dir)",
+                                      data=dict(knot=param[0], num=num[0], multiplicity=s_u))
 
             # Flatten to 1-dimensional structure
             ctrlpts_new = []
@@ -515,6 +527,10 @@ def remove_knot(obj, param, num, **kwargs):
             # Compute new control points
             ctrlpts_tmp = helpers.knot_removal(obj.degree_v, obj.knotvector_v, cpt2d, param[1],
                                                num=num[1], s=s_v, span=span_v)
+            # A removal which cannot be carried out (e.g. of the knots which clamp the shape) is refused before the shape is touched
+            if len(ctrlpts_tmp) != obj.ctrlpts_size_v - num[1]:
+                raise GeomdlException("Knot " + str(param[1]) + " cannot be removed " + str(num[1]) + " times (v-dir)",
+                                      data=dict(knot=param[1], num=num[1], multiplicity=s_v))
 
             # Flatten to 1-dimensional structure
             ctrlpts_new = []
@@ -557,6 +573,10 @@ def remove_knot(obj, param, num, **kwargs):
             # Compute new control points
             ctrlpts_tmp = helpers.knot_removal(obj.degree_w, obj.knotvector_w, cpt2d, param[2],
                                                num=num[2], s=s_w, span=span_w)
+            # A removal which cannot be carried out (e.g. of the knots which clamp the shape) is refused before the shape is touched
+            if len(ctrlpts_tmp) != obj.ctrlpts_size_w - num[2]:
+                raise GeomdlException("Knot " + str(param[2]) + " cannot be removed " + str(num[2]) + " times (w-dir)",
+                                      data=dict(knot=param[2], num=num[2], multiplicity=s_w))
 
             # Flatten to 1-dimensional structure
             ctrlpts_new = []
